@@ -41,6 +41,8 @@ type sys38 struct {
 	maxEpoch uint32
 	menu     []string
 	ops      []op38
+	depth    int
+	rewards  []int64
 }
 
 type st38 struct {
@@ -59,7 +61,7 @@ type st38 struct {
 var fundActive, fundUnStaked = ssc.VerifSysscFundTypes()
 
 func newSys38(cfg *sysConfig, nActors int, maxEpoch uint32, rewards []int64) *sys38 {
-	y := &sys38{cfg: cfg, maxEpoch: maxEpoch}
+	y := &sys38{cfg: cfg, maxEpoch: maxEpoch, rewards: rewards}
 	y.actors = [][]byte{userAddr(0xa0), userAddr(0xd1), userAddr(0xd2)}[:nActors]
 	y.names = []string{"owner", "D1", "D2"}[:nActors]
 	add := func(o op38) {
@@ -304,6 +306,9 @@ func (s *st38) dump() string {
 	var sb strings.Builder
 	w := s.v.w
 	fmt.Fprintf(&sb, "cfg=%s epoch=%d", s.y.cfg.name, w.epoch)
+	if raw := w.get(s.y.dsc, sscKeys.ServiceFee); true {
+		fmt.Fprintf(&sb, " serviceFee=%v/10000", new(big.Int).SetBytes(raw))
+	}
 	if raw := w.get(s.y.dsc, sscKeys.GlobalFund); len(raw) > 0 {
 		g := &ssc.GlobalFundData{}
 		must(protoMarsh.Unmarshal(g, raw))
@@ -423,56 +428,54 @@ func (s *st38) key() string {
 	return sb.String()
 }
 
-func configs38(c *mc.Ctx) []*sysConfig {
-	mk := func(name string, redelegCheck, unbondV2 uint32) *sysConfig {
-		return &sysConfig{name: name, minNodes: 1, maxNodes: 10, unBondNonc: 10, enable: config.EnableEpochs{
-			StakeEnableEpoch:                   0,
-			StakingV2EnableEpoch:               0,
-			CorrectLastUnjailedEnableEpoch:     0,
-			DoubleKeyProtectionEnableEpoch:     0,
-			DelegationManagerEnableEpoch:       0,
-			DelegationSmartContractEnableEpoch: 0,
-			UnbondTokensV2EnableEpoch:          unbondV2,
-			ValidatorToDelegationEnableEpoch:   never,
-			ReDelegateBelowMinCheckEnableEpoch: redelegCheck,
-		}}
-	}
-	cs := []*sysConfig{mk("reDelegateBelowMinCheck@0,unbondTokensV2@0", 0, 0)}
-	if !c.Quick() {
-		cs = append(cs, mk("reDelegateBelowMinCheck@never,unbondTokensV2@never", never, never))
-	}
-	return cs
+func config38(name string, redelegCheck, unbondV2 uint32) *sysConfig {
+	return &sysConfig{name: name, minNodes: 1, maxNodes: 10, unBondNonc: 10, enable: config.EnableEpochs{
+		StakeEnableEpoch:                   0,
+		StakingV2EnableEpoch:               0,
+		CorrectLastUnjailedEnableEpoch:     0,
+		DoubleKeyProtectionEnableEpoch:     0,
+		DelegationManagerEnableEpoch:       0,
+		DelegationSmartContractEnableEpoch: 0,
+		UnbondTokensV2EnableEpoch:          unbondV2,
+		ValidatorToDelegationEnableEpoch:   never,
+		ReDelegateBelowMinCheckEnableEpoch: redelegCheck,
+	}}
 }
 
 func runC38(c *mc.Ctx) {
-	depth := pickDepth(c, 6, 7)
-	nActors := c.Pick(2, 3)
-	maxEpoch := uint32(c.Pick(2, 3))
-	rewards := []int64{-1, 7, 1000}
-	if !c.Quick() {
-		rewards = []int64{-1, 0, 7, 1000}
+	cfgOn := config38("reDelegateBelowMinCheck@0,unbondTokensV2@0", 0, 0)
+	cfgOff := config38("reDelegateBelowMinCheck@never,unbondTokensV2@never", never, never)
+	var systems []*sys38
+	add := func(cfg *sysConfig, nActors int, maxEpoch uint32, rewards []int64, depth int) {
+		y := newSys38(cfg, nActors, maxEpoch, rewards)
+		y.depth = depth
+		if *depthFlag > 0 {
+			y.depth = *depthFlag
+		}
+		systems = append(systems, y)
+	}
+	if c.Quick() {
+		add(cfgOn, 2, 2, []int64{-1, 7, 1000}, 6)
+	} else {
+		add(cfgOn, 3, 3, []int64{-1, 0, 7, 1000}, 6)
+		add(cfgOn, 2, 3, []int64{-1, 7, 1000}, 7)
+		add(cfgOff, 2, 2, []int64{-1, 7, 1000}, 6)
 	}
 	c.Rule = "non-trivial = a step that exercises a boundary of the statement: a withdraw paying out after the unbonding period elapsed (per delegator and epoch), a delegate below the minimum rejected, an unDelegate rejected for leaving dust / below the minimum, a partial unDelegate, rewards claimed or re-delegated (per delegator)"
 	c.Assumptions = []string{
 		"driver = production wiring (NewVMContext + NewSystemSCFactory.Create + NewSystemVM, GogoProtoMarshalizer) over a map world; a transaction's VMOutput is applied iff its return code is Ok; account balances are tracked but not enforced (see next)",
-		"the delegation contract's balance equals rewards received minus rewards paid (checked as a harness self-check in every state), so 'rewards paid > rewards received' is the same event as 'the contract answers Ok to a payout its balance cannot cover'; on a full node the account layer would then revert that transaction - the contract's bookkeeping is what is judged here",
+		"the delegation contract's balance equals rewards received minus rewards paid (checked as a harness self-check in every state), so 'rewards paid > rewards received' is the same event as 'the contract answers Ok to a payout its balance cannot cover'; on a full node the account layer would then revert that transaction (and an honest delegator's later claim instead) - the contract's bookkeeping is what is judged here",
 		"one delegation contract created through the delegation manager: owner deposit 10 (= minimum creation deposit = minimum delegation), service fee 0 (changeServiceFee 0/5000 of 10000), no delegation cap, no nodes added (stake stays as top-up on the validator contract); node price 1000; unbonding period 1 epoch",
 		"the epoch event is the epoch-start block: epoch+1, contracts' feature flags re-evaluated, then (optionally) the protocol's updateRewards transaction with that epoch's rewards - at most one per epoch, before any user transaction of the epoch, as the protocol does",
 		"total undelegated = sum of the values of successful unDelegate transactions; paid by withdrawals / claims = what the delegator nets in the transaction's output; re-delegated rewards = what the validator contract nets in a reDelegateRewards transaction; rewards received = call values of successful updateRewards",
 		"delegators are the owner and the listed user accounts only; 'funds that exist' = the referenced fund key is stored, with the matching type and owner, and referenced once",
-	}
-	var systems []*sys38
-	for _, cfg := range configs38(c) {
-		systems = append(systems, newSys38(cfg, nActors, maxEpoch, rewards))
 	}
 	if len(c.ReplayData) > 0 {
 		replayNames(c, func(names []string) {
 			for _, y := range systems {
 				runNames(c, names, y.menu, y.cfg.name, func() (func(int) (string, string), func(int) bool) {
 					s := y.init()
-					if sg, d := s.check(); sg != "" {
-						panic(sg + d)
-					}
+					s.ensure()
 					return func(o int) (string, string) {
 						if sg, d := s.do(o); sg != "" {
 							return sg, d
@@ -485,6 +488,7 @@ func runC38(c *mc.Ctx) {
 		return
 	}
 	complete := true
+	var bounds []string
 	for _, y := range systems {
 		y := y
 		st := mc.BFS(c, mc.Sys[*st38]{
@@ -497,16 +501,19 @@ func runC38(c *mc.Ctx) {
 			Nontrivial: func(s *st38) string { s.ensure(); return s.nt },
 			Outcome:    func(s *st38) string { s.ensure(); return s.last },
 			Close:      func(s *st38) { s.close() },
-		}, depth)
-		c.Set("states["+y.cfg.name+"]", st.States)
-		c.Set("transitions["+y.cfg.name+"]", st.Transitions)
-		if st.Depth < depth && !st.Fixpoint {
+		}, y.depth)
+		tag := fmt.Sprintf("%s, %d delegators incl. owner, menu of %d, epochs 0..%d, rewards %v", y.cfg.name, len(y.actors), len(y.menu), y.maxEpoch, y.rewards)
+		c.Set("states["+tag+"]", st.States)
+		c.Set("transitions["+tag+"]", st.Transitions)
+		bounds = append(bounds, fmt.Sprintf("all histories of <= %d operations: %s", st.Depth, tag))
+		if st.Depth < y.depth && !st.Fixpoint {
 			complete = false
 		}
 	}
 	c.Set("menu", systems[0].menu)
+	c.Set("searches", bounds)
 	if complete {
-		c.Bound = fmt.Sprintf("all histories of <= %d operations (menu of %d: %d delegators incl. owner, amounts 9/10/20, unDelegate 9/10/all, epochs 0..%d with rewards %v) with state matching, for each of %d feature-epoch configurations", depth, len(systems[0].menu), nActors, maxEpoch, rewards, len(systems))
+		c.Bound = strings.Join(bounds, " || ") + " (amounts: delegate 9/10/20, unDelegate 9/10/all; -1 = epoch without rewards; state matching)"
 	} else {
 		c.Bound = "search stopped before the depth bound"
 	}
